@@ -20,6 +20,7 @@ QUICK = [
     # same-message copies followed by mutations of either side: small alphabets so that handles get reused
     dict(mode="sim", nmsgs=1, maxops=6, maxobjs=8, sizes="SizesTiny", shapes="ShapesTiny", complens="{1}", ops=OPS, plan="PlanCopy", num=150, per_prefix=3, limit=3000),
     dict(mode="sim", nmsgs=2, maxops=7, maxobjs=9, sizes="SizesTiny", shapes="ShapesTiny", complens="{1}", ops=OPS, plan="PlanCopy2", num=150, per_prefix=3, limit=3000),
+    dict(mode="sim", nmsgs=1, maxops=7, maxobjs=9, sizes="SizesSmall", shapes="ShapesTiny", complens="{1, 2}", ops=OPS, plan="PlanOverwrite", num=300, per_prefix=2, limit=1200),
 ]
 THOROUGH = [
     dict(mode="ex", nmsgs=2, maxops=3, maxobjs=6, sizes="SizesSmall", shapes="ShapesSmall", complens="{2}", ops=OPS, limit=40000),
